@@ -230,4 +230,291 @@ def DecodeZigZag64.body (fuel : Nat) : DecodeZigZag64.St → Go.Out DecodeZigZag
 def DecodeZigZag64 (fuel : Nat) (p : Bytes) : Go.Out DecodeZigZag64.St DecodeZigZag64.R :=
   DecodeZigZag64.body fuel { p := p }
 
+/-! ### `Decoder.Offset` (/repo/decoder.go:125:1) -/
+
+structure Decoder_Offset.St where
+  d_p : Bytes
+  d_offset : BitVec 64
+  d_mode : BitVec 64
+  d_keyStart : BitVec 64
+  d_keyEnd : BitVec 64
+
+abbrev Decoder_Offset.R := BitVec 64
+
+/-- the body of `Decoder_Offset`, statement by statement -/
+def Decoder_Offset.body (fuel : Nat) : Decoder_Offset.St → Go.Out Decoder_Offset.St Decoder_Offset.R :=
+  (Go.seq (fun s => .ret (s.d_offset) s)
+    Go.missingReturn)
+
+def Decoder_Offset (fuel : Nat) (d_p : Bytes) (d_offset : BitVec 64) (d_mode : BitVec 64) (d_keyStart : BitVec 64) (d_keyEnd : BitVec 64) : Go.Out Decoder_Offset.St Decoder_Offset.R :=
+  Decoder_Offset.body fuel { d_p := d_p, d_offset := d_offset, d_mode := d_mode, d_keyStart := d_keyStart, d_keyEnd := d_keyEnd }
+
+/-! ### `Decoder.Reset` (/repo/decoder.go:115:1) -/
+
+structure Decoder_Reset.St where
+  d_p : Bytes
+  d_offset : BitVec 64
+  d_mode : BitVec 64
+  d_keyStart : BitVec 64
+  d_keyEnd : BitVec 64
+
+abbrev Decoder_Reset.R := Unit
+
+/-- the body of `Decoder_Reset`, statement by statement -/
+def Decoder_Reset.body (fuel : Nat) : Decoder_Reset.St → Go.Out Decoder_Reset.St Decoder_Reset.R :=
+  (Go.seq (fun s => .next { s with d_offset := 0#64 })
+    (fun s => .ret () s))
+
+def Decoder_Reset (fuel : Nat) (d_p : Bytes) (d_offset : BitVec 64) (d_mode : BitVec 64) (d_keyStart : BitVec 64) (d_keyEnd : BitVec 64) : Go.Out Decoder_Reset.St Decoder_Reset.R :=
+  Decoder_Reset.body fuel { d_p := d_p, d_offset := d_offset, d_mode := d_mode, d_keyStart := d_keyStart, d_keyEnd := d_keyEnd }
+
+/-! ### `Decoder.DecodeTag` (/repo/decoder.go:132:1) -/
+
+structure Decoder_DecodeTag.St where
+  d_p : Bytes
+  d_offset : BitVec 64
+  d_mode : BitVec 64
+  d_keyStart : BitVec 64
+  d_keyEnd : BitVec 64
+  tag : BitVec 64 := 0#64
+  wireType : BitVec 64 := 0#64
+  err : Go.Err := Go.Err.nil
+  v : BitVec 64 := 0#64
+  n : BitVec 64 := 0#64
+
+abbrev Decoder_DecodeTag.R := BitVec 64 × BitVec 64 × Go.Err
+
+/-- the body of `Decoder_DecodeTag`, statement by statement -/
+def Decoder_DecodeTag.body (fuel : Nat) : Decoder_DecodeTag.St → Go.Out Decoder_DecodeTag.St Decoder_DecodeTag.R :=
+  (Go.seq (Go.seq (fun s => if (BitVec.sle (BitVec.ofNat 64 s.d_p.length) s.d_offset) then (fun s => .ret (0#64, 0#64, Go.Err.unexpectedEOF) s) s else Go.skip s)
+    (Go.seq (fun s => if ((s.d_offset).toNat ≤ s.d_p.length) then match (DecodeVarint fuel (s.d_p.drop (s.d_offset).toNat)) with | .ret r c => .next { s with v := r.1, n := r.2.1, err := r.2.2 } | .next _ => .panic | .panic => .panic | .diverge => .diverge else .panic)
+    (Go.seq (fun s => if (s.err != Go.Err.nil) then (fun s => .ret (0#64, (BitVec.ofInt 64 (-1)), s.err) s) s else Go.skip s)
+    (Go.seq (fun s => if (((BitVec.slt s.n 1#64) || (BitVec.ult s.v 1#64)) || (BitVec.ult 536870911#64 (s.v >>> 3))) then (fun s => .ret (0#64, (BitVec.ofInt 64 (-1)), (Go.Err.other "ErrInvalidFieldTag")) s) s else Go.skip s)
+    (Go.seq (fun s => .next { s with d_keyStart := s.d_offset, d_keyEnd := (s.d_offset + s.n) })
+    (Go.seq (fun s => .next { s with d_offset := (s.d_offset + s.n) })
+    (fun s => .ret ((s.v >>> 3), (s.v &&& 7#64), Go.Err.nil) s)))))))
+    Go.missingReturn)
+
+def Decoder_DecodeTag (fuel : Nat) (d_p : Bytes) (d_offset : BitVec 64) (d_mode : BitVec 64) (d_keyStart : BitVec 64) (d_keyEnd : BitVec 64) : Go.Out Decoder_DecodeTag.St Decoder_DecodeTag.R :=
+  Decoder_DecodeTag.body fuel { d_p := d_p, d_offset := d_offset, d_mode := d_mode, d_keyStart := d_keyStart, d_keyEnd := d_keyEnd }
+
+/-! ### `Decoder.DecodeUInt64` (/repo/decoder.go:240:1) -/
+
+structure Decoder_DecodeUInt64.St where
+  d_p : Bytes
+  d_offset : BitVec 64
+  d_mode : BitVec 64
+  d_keyStart : BitVec 64
+  d_keyEnd : BitVec 64
+  v : BitVec 64 := 0#64
+  n : BitVec 64 := 0#64
+  err : Go.Err := Go.Err.nil
+
+abbrev Decoder_DecodeUInt64.R := BitVec 64 × Go.Err
+
+/-- the body of `Decoder_DecodeUInt64`, statement by statement -/
+def Decoder_DecodeUInt64.body (fuel : Nat) : Decoder_DecodeUInt64.St → Go.Out Decoder_DecodeUInt64.St Decoder_DecodeUInt64.R :=
+  (Go.seq (Go.seq (fun s => if (BitVec.sle (BitVec.ofNat 64 s.d_p.length) s.d_offset) then (fun s => .ret (0#64, Go.Err.unexpectedEOF) s) s else Go.skip s)
+    (Go.seq (fun s => if ((s.d_offset).toNat ≤ s.d_p.length) then match (DecodeVarint fuel (s.d_p.drop (s.d_offset).toNat)) with | .ret r c => .next { s with v := r.1, n := r.2.1, err := r.2.2 } | .next _ => .panic | .panic => .panic | .diverge => .diverge else .panic)
+    (Go.seq (fun s => if (s.err != Go.Err.nil) then (fun s => .ret (0#64, s.err) s) s else Go.skip s)
+    (Go.seq (fun s => if (s.n == 0#64) then (fun s => .ret (0#64, Go.Err.invalidVarint) s) s else Go.skip s)
+    (Go.seq (fun s => .next { s with d_offset := (s.d_offset + s.n) })
+    (fun s => .ret (s.v, Go.Err.nil) s))))))
+    Go.missingReturn)
+
+def Decoder_DecodeUInt64 (fuel : Nat) (d_p : Bytes) (d_offset : BitVec 64) (d_mode : BitVec 64) (d_keyStart : BitVec 64) (d_keyEnd : BitVec 64) : Go.Out Decoder_DecodeUInt64.St Decoder_DecodeUInt64.R :=
+  Decoder_DecodeUInt64.body fuel { d_p := d_p, d_offset := d_offset, d_mode := d_mode, d_keyStart := d_keyStart, d_keyEnd := d_keyEnd }
+
+/-! ### `Decoder.DecodeInt64` (/repo/decoder.go:280:1) -/
+
+structure Decoder_DecodeInt64.St where
+  d_p : Bytes
+  d_offset : BitVec 64
+  d_mode : BitVec 64
+  d_keyStart : BitVec 64
+  d_keyEnd : BitVec 64
+  v : BitVec 64 := 0#64
+  n : BitVec 64 := 0#64
+  err : Go.Err := Go.Err.nil
+
+abbrev Decoder_DecodeInt64.R := BitVec 64 × Go.Err
+
+/-- the body of `Decoder_DecodeInt64`, statement by statement -/
+def Decoder_DecodeInt64.body (fuel : Nat) : Decoder_DecodeInt64.St → Go.Out Decoder_DecodeInt64.St Decoder_DecodeInt64.R :=
+  (Go.seq (Go.seq (fun s => if (BitVec.sle (BitVec.ofNat 64 s.d_p.length) s.d_offset) then (fun s => .ret (0#64, Go.Err.unexpectedEOF) s) s else Go.skip s)
+    (Go.seq (fun s => if ((s.d_offset).toNat ≤ s.d_p.length) then match (DecodeVarint fuel (s.d_p.drop (s.d_offset).toNat)) with | .ret r c => .next { s with v := r.1, n := r.2.1, err := r.2.2 } | .next _ => .panic | .panic => .panic | .diverge => .diverge else .panic)
+    (Go.seq (fun s => if (s.err != Go.Err.nil) then (fun s => .ret (0#64, s.err) s) s else Go.skip s)
+    (Go.seq (fun s => if (s.n == 0#64) then (fun s => .ret (0#64, Go.Err.invalidVarint) s) s else Go.skip s)
+    (Go.seq (fun s => .next { s with d_offset := (s.d_offset + s.n) })
+    (fun s => .ret (s.v, Go.Err.nil) s))))))
+    Go.missingReturn)
+
+def Decoder_DecodeInt64 (fuel : Nat) (d_p : Bytes) (d_offset : BitVec 64) (d_mode : BitVec 64) (d_keyStart : BitVec 64) (d_keyEnd : BitVec 64) : Go.Out Decoder_DecodeInt64.St Decoder_DecodeInt64.R :=
+  Decoder_DecodeInt64.body fuel { d_p := d_p, d_offset := d_offset, d_mode := d_mode, d_keyStart := d_keyStart, d_keyEnd := d_keyEnd }
+
+/-! ### `Decoder.DecodeUInt32` (/repo/decoder.go:219:1) -/
+
+structure Decoder_DecodeUInt32.St where
+  d_p : Bytes
+  d_offset : BitVec 64
+  d_mode : BitVec 64
+  d_keyStart : BitVec 64
+  d_keyEnd : BitVec 64
+  v : BitVec 64 := 0#64
+  n : BitVec 64 := 0#64
+  err : Go.Err := Go.Err.nil
+
+abbrev Decoder_DecodeUInt32.R := BitVec 32 × Go.Err
+
+/-- the body of `Decoder_DecodeUInt32`, statement by statement -/
+def Decoder_DecodeUInt32.body (fuel : Nat) : Decoder_DecodeUInt32.St → Go.Out Decoder_DecodeUInt32.St Decoder_DecodeUInt32.R :=
+  (Go.seq (Go.seq (fun s => if (BitVec.sle (BitVec.ofNat 64 s.d_p.length) s.d_offset) then (fun s => .ret (0#32, Go.Err.unexpectedEOF) s) s else Go.skip s)
+    (Go.seq (fun s => if ((s.d_offset).toNat ≤ s.d_p.length) then match (DecodeVarint fuel (s.d_p.drop (s.d_offset).toNat)) with | .ret r c => .next { s with v := r.1, n := r.2.1, err := r.2.2 } | .next _ => .panic | .panic => .panic | .diverge => .diverge else .panic)
+    (Go.seq (fun s => if (s.err != Go.Err.nil) then (fun s => .ret (0#32, s.err) s) s else Go.skip s)
+    (Go.seq (fun s => if (s.n == 0#64) then (fun s => .ret (0#32, Go.Err.invalidVarint) s) s else Go.skip s)
+    (Go.seq (fun s => if (BitVec.ult 4294967295#64 s.v) then (fun s => .ret (0#32, Go.Err.overflow) s) s else Go.skip s)
+    (Go.seq (fun s => .next { s with d_offset := (s.d_offset + s.n) })
+    (fun s => .ret ((BitVec.setWidth 32 s.v), Go.Err.nil) s)))))))
+    Go.missingReturn)
+
+def Decoder_DecodeUInt32 (fuel : Nat) (d_p : Bytes) (d_offset : BitVec 64) (d_mode : BitVec 64) (d_keyStart : BitVec 64) (d_keyEnd : BitVec 64) : Go.Out Decoder_DecodeUInt32.St Decoder_DecodeUInt32.R :=
+  Decoder_DecodeUInt32.body fuel { d_p := d_p, d_offset := d_offset, d_mode := d_mode, d_keyStart := d_keyStart, d_keyEnd := d_keyEnd }
+
+/-! ### `Decoder.DecodeInt32` (/repo/decoder.go:258:1) -/
+
+structure Decoder_DecodeInt32.St where
+  d_p : Bytes
+  d_offset : BitVec 64
+  d_mode : BitVec 64
+  d_keyStart : BitVec 64
+  d_keyEnd : BitVec 64
+  v : BitVec 64 := 0#64
+  n : BitVec 64 := 0#64
+  err : Go.Err := Go.Err.nil
+  i64 : BitVec 64 := 0#64
+
+abbrev Decoder_DecodeInt32.R := BitVec 32 × Go.Err
+
+/-- the body of `Decoder_DecodeInt32`, statement by statement -/
+def Decoder_DecodeInt32.body (fuel : Nat) : Decoder_DecodeInt32.St → Go.Out Decoder_DecodeInt32.St Decoder_DecodeInt32.R :=
+  (Go.seq (Go.seq (fun s => if (BitVec.sle (BitVec.ofNat 64 s.d_p.length) s.d_offset) then (fun s => .ret (0#32, Go.Err.unexpectedEOF) s) s else Go.skip s)
+    (Go.seq (fun s => if ((s.d_offset).toNat ≤ s.d_p.length) then match (DecodeVarint fuel (s.d_p.drop (s.d_offset).toNat)) with | .ret r c => .next { s with v := r.1, n := r.2.1, err := r.2.2 } | .next _ => .panic | .panic => .panic | .diverge => .diverge else .panic)
+    (Go.seq (fun s => if (s.err != Go.Err.nil) then (fun s => .ret (0#32, s.err) s) s else Go.skip s)
+    (Go.seq (fun s => if (s.n == 0#64) then (fun s => .ret (0#32, Go.Err.invalidVarint) s) s else Go.skip s)
+    (Go.seq (Go.seq (fun s => .next { s with i64 := s.v }) (fun s => if ((BitVec.slt 2147483647#64 s.i64) || (BitVec.slt s.i64 (BitVec.ofInt 64 (-2147483648)))) then (fun s => .ret (0#32, Go.Err.overflow) s) s else Go.skip s))
+    (Go.seq (fun s => .next { s with d_offset := (s.d_offset + s.n) })
+    (fun s => .ret ((BitVec.setWidth 32 s.v), Go.Err.nil) s)))))))
+    Go.missingReturn)
+
+def Decoder_DecodeInt32 (fuel : Nat) (d_p : Bytes) (d_offset : BitVec 64) (d_mode : BitVec 64) (d_keyStart : BitVec 64) (d_keyEnd : BitVec 64) : Go.Out Decoder_DecodeInt32.St Decoder_DecodeInt32.R :=
+  Decoder_DecodeInt32.body fuel { d_p := d_p, d_offset := d_offset, d_mode := d_mode, d_keyStart := d_keyStart, d_keyEnd := d_keyEnd }
+
+/-! ### `Decoder.DecodeSInt32` (/repo/decoder.go:298:1) -/
+
+structure Decoder_DecodeSInt32.St where
+  d_p : Bytes
+  d_offset : BitVec 64
+  d_mode : BitVec 64
+  d_keyStart : BitVec 64
+  d_keyEnd : BitVec 64
+  v : BitVec 32 := 0#32
+  n : BitVec 64 := 0#64
+  err : Go.Err := Go.Err.nil
+
+abbrev Decoder_DecodeSInt32.R := BitVec 32 × Go.Err
+
+/-- the body of `Decoder_DecodeSInt32`, statement by statement -/
+def Decoder_DecodeSInt32.body (fuel : Nat) : Decoder_DecodeSInt32.St → Go.Out Decoder_DecodeSInt32.St Decoder_DecodeSInt32.R :=
+  (Go.seq (Go.seq (fun s => if (BitVec.sle (BitVec.ofNat 64 s.d_p.length) s.d_offset) then (fun s => .ret (0#32, Go.Err.unexpectedEOF) s) s else Go.skip s)
+    (Go.seq (fun s => if ((s.d_offset).toNat ≤ s.d_p.length) then match (DecodeZigZag32 fuel (s.d_p.drop (s.d_offset).toNat)) with | .ret r c => .next { s with v := r.1, n := r.2.1, err := r.2.2 } | .next _ => .panic | .panic => .panic | .diverge => .diverge else .panic)
+    (Go.seq (fun s => if (s.err != Go.Err.nil) then (fun s => .ret (0#32, s.err) s) s else Go.skip s)
+    (Go.seq (fun s => if (s.n == 0#64) then (fun s => .ret (0#32, (Go.Err.other "ErrInvalidZigZagData")) s) s else Go.skip s)
+    (Go.seq (fun s => .next { s with d_offset := (s.d_offset + s.n) })
+    (fun s => .ret (s.v, Go.Err.nil) s))))))
+    Go.missingReturn)
+
+def Decoder_DecodeSInt32 (fuel : Nat) (d_p : Bytes) (d_offset : BitVec 64) (d_mode : BitVec 64) (d_keyStart : BitVec 64) (d_keyEnd : BitVec 64) : Go.Out Decoder_DecodeSInt32.St Decoder_DecodeSInt32.R :=
+  Decoder_DecodeSInt32.body fuel { d_p := d_p, d_offset := d_offset, d_mode := d_mode, d_keyStart := d_keyStart, d_keyEnd := d_keyEnd }
+
+/-! ### `Decoder.DecodeSInt64` (/repo/decoder.go:316:1) -/
+
+structure Decoder_DecodeSInt64.St where
+  d_p : Bytes
+  d_offset : BitVec 64
+  d_mode : BitVec 64
+  d_keyStart : BitVec 64
+  d_keyEnd : BitVec 64
+  v : BitVec 64 := 0#64
+  n : BitVec 64 := 0#64
+  err : Go.Err := Go.Err.nil
+
+abbrev Decoder_DecodeSInt64.R := BitVec 64 × Go.Err
+
+/-- the body of `Decoder_DecodeSInt64`, statement by statement -/
+def Decoder_DecodeSInt64.body (fuel : Nat) : Decoder_DecodeSInt64.St → Go.Out Decoder_DecodeSInt64.St Decoder_DecodeSInt64.R :=
+  (Go.seq (Go.seq (fun s => if (BitVec.sle (BitVec.ofNat 64 s.d_p.length) s.d_offset) then (fun s => .ret (0#64, Go.Err.unexpectedEOF) s) s else Go.skip s)
+    (Go.seq (fun s => if ((s.d_offset).toNat ≤ s.d_p.length) then match (DecodeZigZag64 fuel (s.d_p.drop (s.d_offset).toNat)) with | .ret r c => .next { s with v := r.1, n := r.2.1, err := r.2.2 } | .next _ => .panic | .panic => .panic | .diverge => .diverge else .panic)
+    (Go.seq (fun s => if (s.err != Go.Err.nil) then (fun s => .ret (0#64, s.err) s) s else Go.skip s)
+    (Go.seq (fun s => if (s.n == 0#64) then (fun s => .ret (0#64, (Go.Err.other "ErrInvalidZigZagData")) s) s else Go.skip s)
+    (Go.seq (fun s => .next { s with d_offset := (s.d_offset + s.n) })
+    (fun s => .ret (s.v, Go.Err.nil) s))))))
+    Go.missingReturn)
+
+def Decoder_DecodeSInt64 (fuel : Nat) (d_p : Bytes) (d_offset : BitVec 64) (d_mode : BitVec 64) (d_keyStart : BitVec 64) (d_keyEnd : BitVec 64) : Go.Out Decoder_DecodeSInt64.St Decoder_DecodeSInt64.R :=
+  Decoder_DecodeSInt64.body fuel { d_p := d_p, d_offset := d_offset, d_mode := d_mode, d_keyStart := d_keyStart, d_keyEnd := d_keyEnd }
+
+/-! ### `Decoder.DecodeFixed32` (/repo/decoder.go:334:1) -/
+
+structure Decoder_DecodeFixed32.St where
+  d_p : Bytes
+  d_offset : BitVec 64
+  d_mode : BitVec 64
+  d_keyStart : BitVec 64
+  d_keyEnd : BitVec 64
+  v : BitVec 32 := 0#32
+  n : BitVec 64 := 0#64
+  err : Go.Err := Go.Err.nil
+
+abbrev Decoder_DecodeFixed32.R := BitVec 32 × Go.Err
+
+/-- the body of `Decoder_DecodeFixed32`, statement by statement -/
+def Decoder_DecodeFixed32.body (fuel : Nat) : Decoder_DecodeFixed32.St → Go.Out Decoder_DecodeFixed32.St Decoder_DecodeFixed32.R :=
+  (Go.seq (Go.seq (fun s => if (BitVec.sle (BitVec.ofNat 64 s.d_p.length) s.d_offset) then (fun s => .ret (0#32, Go.Err.unexpectedEOF) s) s else Go.skip s)
+    (Go.seq (fun s => if ((s.d_offset).toNat ≤ s.d_p.length) then match (DecodeFixed32 fuel (s.d_p.drop (s.d_offset).toNat)) with | .ret r c => .next { s with v := r.1, n := r.2.1, err := r.2.2 } | .next _ => .panic | .panic => .panic | .diverge => .diverge else .panic)
+    (Go.seq (fun s => if (s.err != Go.Err.nil) then (fun s => .ret (0#32, s.err) s) s else Go.skip s)
+    (Go.seq (fun s => if (s.n == 0#64) then (fun s => .ret (0#32, (Go.Err.other "ErrInvalidFixed32Data")) s) s else Go.skip s)
+    (Go.seq (fun s => .next { s with d_offset := (s.d_offset + s.n) })
+    (fun s => .ret (s.v, Go.Err.nil) s))))))
+    Go.missingReturn)
+
+def Decoder_DecodeFixed32 (fuel : Nat) (d_p : Bytes) (d_offset : BitVec 64) (d_mode : BitVec 64) (d_keyStart : BitVec 64) (d_keyEnd : BitVec 64) : Go.Out Decoder_DecodeFixed32.St Decoder_DecodeFixed32.R :=
+  Decoder_DecodeFixed32.body fuel { d_p := d_p, d_offset := d_offset, d_mode := d_mode, d_keyStart := d_keyStart, d_keyEnd := d_keyEnd }
+
+/-! ### `Decoder.DecodeFixed64` (/repo/decoder.go:352:1) -/
+
+structure Decoder_DecodeFixed64.St where
+  d_p : Bytes
+  d_offset : BitVec 64
+  d_mode : BitVec 64
+  d_keyStart : BitVec 64
+  d_keyEnd : BitVec 64
+  v : BitVec 64 := 0#64
+  n : BitVec 64 := 0#64
+  err : Go.Err := Go.Err.nil
+
+abbrev Decoder_DecodeFixed64.R := BitVec 64 × Go.Err
+
+/-- the body of `Decoder_DecodeFixed64`, statement by statement -/
+def Decoder_DecodeFixed64.body (fuel : Nat) : Decoder_DecodeFixed64.St → Go.Out Decoder_DecodeFixed64.St Decoder_DecodeFixed64.R :=
+  (Go.seq (Go.seq (fun s => if (BitVec.sle (BitVec.ofNat 64 s.d_p.length) s.d_offset) then (fun s => .ret (0#64, Go.Err.unexpectedEOF) s) s else Go.skip s)
+    (Go.seq (fun s => if ((s.d_offset).toNat ≤ s.d_p.length) then match (DecodeFixed64 fuel (s.d_p.drop (s.d_offset).toNat)) with | .ret r c => .next { s with v := r.1, n := r.2.1, err := r.2.2 } | .next _ => .panic | .panic => .panic | .diverge => .diverge else .panic)
+    (Go.seq (fun s => if (s.err != Go.Err.nil) then (fun s => .ret (0#64, s.err) s) s else Go.skip s)
+    (Go.seq (fun s => if (s.n == 0#64) then (fun s => .ret (0#64, (Go.Err.other "ErrInvalidFixed64Data")) s) s else Go.skip s)
+    (Go.seq (fun s => .next { s with d_offset := (s.d_offset + s.n) })
+    (fun s => .ret (s.v, Go.Err.nil) s))))))
+    Go.missingReturn)
+
+def Decoder_DecodeFixed64 (fuel : Nat) (d_p : Bytes) (d_offset : BitVec 64) (d_mode : BitVec 64) (d_keyStart : BitVec 64) (d_keyEnd : BitVec 64) : Go.Out Decoder_DecodeFixed64.St Decoder_DecodeFixed64.R :=
+  Decoder_DecodeFixed64.body fuel { d_p := d_p, d_offset := d_offset, d_mode := d_mode, d_keyStart := d_keyStart, d_keyEnd := d_keyEnd }
+
 end Csproto.Generated.WireFuncs
